@@ -278,10 +278,13 @@ def read_model_check(pid, quick, which='seek'):
        which='stream': streaming handle read to the end - every sample of every link once and in order; pinned rule: the link bound to the serial number of
        the BOS page in hand instead of the Vorbis stream's;
        which='lap': lapped sample seeks among reads and raw seeks - a lapped seek lands where the plain one does and reports end of file only where nothing
-       follows; pinned rule: every BOS page of another serial number taken for the next link.  TLC must refute the pinned rules."""
+       follows; pinned rule: every BOS page of another serial number taken for the next link;
+       which='damage': files with one audio page missing or there twice - every call ends and answers with a count or a documented code.
+       TLC must refute the pinned rules."""
     out = dict(states=0, transitions=0, configs={}, pinned_rules_refuted={}); viol = []
     if which == 'seek': cfgs = ['VFRead_MC.cfg', 'VFRead_MC_span.cfg'] + ([] if quick else ['VFRead_MC_bsizes.cfg', 'VFRead_MC_half.cfg', 'VFRead_MC_2.cfg', 'VFRead_MC_half2.cfg']); pinned = 'VFRead_MC_pinned_vi.cfg'
     elif which == 'lap': cfgs = ['VFRead_MC_lap.cfg'] + ([] if quick else ['VFRead_MC_lap2.cfg']); pinned = 'VFRead_MC_pinned_bos.cfg'
+    elif which == 'damage': cfgs = ['VFRead_MC_damage_q.cfg'] + ([] if quick else ['VFRead_MC_damage.cfg']); pinned = None
     else: cfgs = ['VFRead_MC_stream_q.cfg'] + ([] if quick else ['VFRead_MC_stream.cfg']); pinned = 'VFRead_MC_pinned_ser.cfg'
     for c in cfgs:
         r = vlib.run_tlc_cached('VFRead_MC.tla', c, workers=8 if quick else 14, timeout=600 if quick else 3000, xmx='4g' if quick else '12g')
@@ -290,8 +293,9 @@ def read_model_check(pid, quick, which='seek'):
             os.makedirs(vlib.REPLAY, exist_ok=True); p = os.path.join(vlib.REPLAY, f'{pid}-design-{c}.txt'); o = r['out']; i = o.find('Error:'); open(p, 'w').write(o[max(0, i):i + 6000])
             if r['violated']: viol.append(dict(replay=p, what=f'design-level invariant of VFRead_MC violated under {c}: the decode path as modelled from the current tree reports a position that is not where the audio comes from, loses or repeats samples, refuses an in-range seek or does not end'))
             else: raise SystemExit(f'TLC failed on {c}: ' + o[-800:])
-    r = vlib.run_tlc('VFRead_MC.tla', pinned, workers=4, timeout=600)
-    out['pinned_rules_refuted'][pinned] = bool(r['violated'])
+    if pinned:
+        r = vlib.run_tlc('VFRead_MC.tla', pinned, workers=4, timeout=600)
+        out['pinned_rules_refuted'][pinned] = bool(r['violated'])
     if which == 'stream':
         # the byte level under the page-level reader: _get_next_page under every schedule of the read callback (with the termination property)
         r = vlib.run_tlc_cached('OggSync_MC.tla', 'OggSync_MC.cfg', workers=4, timeout=600)
@@ -802,7 +806,10 @@ def check_c03(pid, tier, seed, replay=None):
         scs.append(s)
     # two batches: a script holds at most 500 files
     lie = [x for x in scs if x.family == 'lying-page-fields']; rest = [x for x in scs if x.family != 'lying-page-fields']
-    res = run_batch(pid, tier, rest, bindir, nproc=16)
+    with ThreadPoolExecutor(max_workers=2) as ex0:
+        fmc = ex0.submit(read_model_check, pid, quick, 'damage')
+        res = run_batch(pid, tier, rest, bindir, nproc=16)
+        mcd, extra_viol = fmc.result()
     if lie:
         r2 = run_batch(pid + 'g', tier, lie, bindir, nproc=16)
         for k2 in ('events', 'states', 'transitions', 'traces', 'harness_s', 'tlc_s'): res[k2] += r2[k2]
@@ -811,6 +818,8 @@ def check_c03(pid, tier, seed, replay=None):
         # the model of the link discovery follows the open of every file of this family whose lies it can express (audio pages only) and must predict
         # verdict, link table and callback seeks: this is what carries VFOpen_MC's exhaustive result on lying pages over to the code
         openmodel = model_fidelity(r2, 'VFOpen_Trace')
+        # ... and the model of the decode path follows the reads and seeks that come after (page sequence numbers, gaps, doubled pages)
+        readmodel = model_fidelity(r2, 'VFRead_Trace')
     rules = SAFETY_RULES | {'ReadUndocumentedCode','SeekUndocumentedCode','OpenUndocumentedCode','HalfRateUndocumentedCode','CrosslapUndocumentedCode',
                             'FailedOpenLeavesHandleCleared','FailedOpenMustNotClose','OpenMustNotClose','NoCloseBehindCaller','ClearReturnsZero','ClearZeroesHandle',
                             'CloseRunsExactlyOnceAtClear','CloseOnlyForOpenedHandles','ReadAtMostLen','WritesInsideBuffer','ClearReleasesEverything'}
@@ -818,7 +827,7 @@ def check_c03(pid, tier, seed, replay=None):
     return finish(pid, tier, seed, 'exploration', scs, res, rules, t0,
       'scenario = a generated chained stream with 1..5 page-level damages drawn from {garbage between pages, capture pattern in garbage, dropped / duplicated / swapped page, truncation at byte d of a page, rewritten granule position (negative, 0, huge, decreasing) with CRC re-fixed, cleared/extra EOS, extra BOS, rewritten serial number (incl. a repeat of another link), bit flips with and without CRC fix, zeroed body}, opened seekable / streaming / via ov_test, followed by 10 random calls over the whole vorbisfile API (reads, every seek and lapped seek, half-rate, crosslap with an intact handle, queries) and a double clear; run under ASan+UBSan with CPU budget and exit trap; oracle (decided in VFApi): no crash, no hang, no exit, documented return codes, failed open leaves the handle zeroed and the source unclosed, close exactly once, no leak; non-trivial = >= 6 events; distinct = distinct damage list + script',
       nt, ['structured damage only (page level); arbitrary byte strings are not claimed','identity/position rules are switched off for damaged streams'],
-      extra_cov=dict(damage_kinds=DAMAGE_KINDS, open_model_on_lying_pages=openmodel if lie else None))
+      extra_cov=dict(damage_kinds=DAMAGE_KINDS, open_model_on_lying_pages=openmodel if lie else None, read_model_on_lying_pages=readmodel if lie else None, design_model=dict(states=mcd['states'], transitions=mcd['transitions'], configs=mcd['configs'])), extra_viol=extra_viol)
 
 # ---------------------------------------------------------------- C17 integer PCM packing
 def pcm_probe_values(seed):
